@@ -62,8 +62,11 @@ def short_adt(adt):
     return adt.split("::")[-1]
 
 
+TRANSPARENT_ADTS = {"itemlist::ItemList"}
+
+
 def is_repo_adt(adt):
-    if adt == "itemlist::ItemList":
+    if adt in TRANSPARENT_ADTS:
         return False
     return not (adt.startswith("std::") or adt.startswith("core::") or adt.startswith("alloc::") or adt.startswith("(")
                 or adt.startswith("fnv::") or adt.startswith("hashbrown::"))
@@ -239,7 +242,7 @@ class Analyzer:
         ev_seen = set()
 
         def emit(ev):
-            key = repr(ev[:4])
+            key = repr(ev[:4]) + (repr(ev[6]) if ev[0] == "call" else "")
             if key not in ev_seen:
                 ev_seen.add(key)
                 events.append(ev)
@@ -321,7 +324,7 @@ class Analyzer:
                         pts = place_terms(p)
                         for pt in pts:
                             if isinstance(pt, tuple) and pt[0] in ("f", "param"):
-                                if emit(("write", pt, frozenset(terms), fshort, s["ln"])):
+                                if emit(("write", pt, frozenset(terms), fshort, s["ln"], bi)):
                                     changed = True
                 t = b["t"]
                 if t["k"] != "call":
@@ -331,6 +334,7 @@ class Analyzer:
                     continue
                 name = mir.strip_generics(res.lstrip("?"))
                 args = [op_terms(a) for a in t["args"]]
+                argtys = tuple((body.locals[mir.op_place(a)["l"]]["ty"] if (mir.op_place(a) is not None and not mir.op_place(a)["p"]) else "?") for a in t["args"])
                 dest = t["dest"]
                 rterms = set()
                 handled = False
@@ -356,7 +360,7 @@ class Analyzer:
                                     for v in ev[2]:
                                         vt |= self.subst(v, binding)
                                     if isinstance(pt, tuple) and pt[0] == "f":
-                                        changed |= emit(("write", pt, frozenset(vt), ev[3], ev[4]))
+                                        changed |= emit(("write", pt, frozenset(vt), ev[3], ev[4], bi))
                             else:
                                 nargs = []
                                 for a in ev[2]:
@@ -364,7 +368,7 @@ class Analyzer:
                                     for x in a:
                                         st |= self.subst(x, binding)
                                     nargs.append(frozenset(st))
-                                changed |= emit(("call", ev[1], tuple(nargs), ev[3], ev[4], ev[5]))
+                                changed |= emit(("call", ev[1], tuple(nargs), ev[3], ev[4], ev[5], bi, ev[7]))
                         for rt in sub.ret:
                             rterms |= self.subst(rt, binding)
                         if not dest["p"]:
@@ -376,7 +380,7 @@ class Analyzer:
                         if not sub.complete:
                             S.complete = False
                         handled = True
-                        changed |= emit(("call", name, tuple(frozenset(a) for a in args), fshort, t["ln"], body.local_name(dest["l"]) if not dest["p"] else None))
+                        changed |= emit(("call", name, tuple(frozenset(a) for a in args), fshort, t["ln"], body.local_name(dest["l"]) if not dest["p"] else None, bi, argtys))
                 if not handled:
                     # closure arguments: instantiate the closure body with element bindings
                     for (ai, cl_local, cl_id) in cl_args:
@@ -403,7 +407,7 @@ class Analyzer:
                                     for v in ev[2]:
                                         vt |= self.subst(v, binding)
                                     if isinstance(pt, tuple) and pt[0] == "f":
-                                        changed |= emit(("write", pt, frozenset(vt), ev[3], ev[4]))
+                                        changed |= emit(("write", pt, frozenset(vt), ev[3], ev[4], bi))
                             else:
                                 nargs = []
                                 for a in ev[2]:
@@ -411,11 +415,11 @@ class Analyzer:
                                     for x in a:
                                         st |= self.subst(x, binding)
                                     nargs.append(frozenset(st))
-                                changed |= emit(("call", ev[1], tuple(nargs), ev[3], ev[4], ev[5]))
+                                changed |= emit(("call", ev[1], tuple(nargs), ev[3], ev[4], ev[5], bi, ev[7]))
                         if any(rx.match(name) for rx in _HM):
                             for rt in sub.ret:
                                 rterms |= self.subst(rt, binding)
-                    changed |= emit(("call", name, tuple(frozenset(a) for a in args), fshort, t["ln"], body.local_name(dest["l"]) if not dest["p"] else None))
+                    changed |= emit(("call", name, tuple(frozenset(a) for a in args), fshort, t["ln"], body.local_name(dest["l"]) if not dest["p"] else None, bi, argtys))
                     if any(rx.match(name) for rx in _LK) and len(args) >= 2:
                         for m in list(args[0])[:4]:
                             for k in list(args[1])[:6]:
@@ -453,7 +457,7 @@ class Analyzer:
                         changed |= add((dest["l"], first["f"]), rterms)
                     for pt in place_terms(dest):
                         if isinstance(pt, tuple) and pt[0] in ("f", "param"):
-                            changed |= emit(("write", pt, frozenset(rterms), fshort, t["ln"]))
+                            changed |= emit(("write", pt, frozenset(rterms), fshort, t["ln"], bi))
         S.events = events
         S.ret = set(val.get(0, set()))
         S.ret_fields = {k[1]: set(v) for k, v in val.items() if isinstance(k, tuple) and k[0] == 0}
